@@ -4,16 +4,27 @@ import (
 	"bytes"
 	"crypto"
 	"crypto/ed25519"
+	"crypto/rsa"
 	"crypto/x509"
 	"crypto/x509/pkix"
+	"encoding/base64"
+	"encoding/binary"
+	"encoding/pem"
 	"fmt"
 	"math/big"
 	"net"
+	"net/url"
 	"os"
 	"os/exec"
 	"path/filepath"
+	"runtime"
 	"sort"
+	"strings"
+	"sync"
 	"time"
+
+	"github.com/edutko/jks-go/keystore"
+	"golang.org/x/crypto/ssh"
 
 	"github.com/edutko/decipher/internal/openpgp"
 	"github.com/edutko/decipher/internal/openpgp/armor"
@@ -93,12 +104,16 @@ func pgpKeyExpiring(r *Rng, when time.Time, lifetime uint32) []byte {
 }
 
 func certWith(r *Rng, ku x509.KeyUsage, ekus []x509.ExtKeyUsage, dns []string, ips []net.IP, when time.Time) []byte {
+	return c04Cert(r, pkix.Name{CommonName: "c04"}, ku, ekus, dns, ips, []string{"a@example.org", "b@example.org"}, nil, when)
+}
+
+func c04Cert(r *Rng, subject pkix.Name, ku x509.KeyUsage, ekus []x509.ExtKeyUsage, dns []string, ips []net.IP, emails []string, uris []*url.URL, when time.Time) []byte {
 	// ed25519: key generation and signing are deterministic functions of the random source,
 	// so the case stream replays exactly from its seed (crypto/ecdsa and crypto/rsa are not)
 	pub, priv, _ := ed25519.GenerateKey(r)
-	tmpl := &x509.Certificate{SerialNumber: big.NewInt(int64(1 + r.Intn(1<<30))), Subject: pkix.Name{CommonName: "c04"},
+	tmpl := &x509.Certificate{SerialNumber: big.NewInt(int64(1 + r.Intn(1<<30))), Subject: subject,
 		NotBefore: when, NotAfter: when.Add(24 * time.Hour), KeyUsage: ku, ExtKeyUsage: ekus, DNSNames: dns, IPAddresses: ips,
-		EmailAddresses: []string{"a@example.org", "b@example.org"}}
+		EmailAddresses: emails, URIs: uris}
 	der, err := x509.CreateCertificate(r, tmpl, tmpl, pub, priv)
 	if err != nil {
 		fmt.Fprintln(os.Stderr, "CreateCertificate:", err)
@@ -121,42 +136,640 @@ func c04UTCTimes() []byte {
 	return append([]byte{0x30, 0x82, byte(len(body) >> 8), byte(len(body))}, body...)
 }
 
+// ---------------------------------------------------------------------------------------
+// displayed text outside ASCII
+// ---------------------------------------------------------------------------------------
+
+type c04Text struct{ tag, s string }
+
+// Strings for every place where text from the file reaches the report. What a program that
+// consults the locale would treat differently: multi-byte sequences of every length (the second
+// byte of U+011B is 0x9b, CSI to an 8-bit terminal), combining marks, the letters whose case
+// mapping is different in tr_TR (dotless/dotted i) and other special casings, invalid UTF-8.
+var c04Texts = []c04Text{
+	{"2byte", "Zo\u00eb \u010cech \u011b\u0159 Gr\u00fc\u00dfe \u00a9"},
+	{"3byte", "\u65e5\u672c\u8a9e \u20ac \u20bf \u0e01\u0e34\u0e19"},
+	{"4byte", "\U0001F600 \U0001D518\U0001D52B\U0001D526 \U0001F1F9\U0001F1F7 \U00020BB7"},
+	{"combining", "e\u0301 a\u030a n\u0303 o\u0302\u0323 \u0915\u094d\u0937 \u1100\u1161\u11a8"},
+	{"turkish-i", "\u0131I i\u0130 D\u0130YARBAKIR diyarbak\u0131r TITLE title \u01c5 \u00df \ufb01 \u03a3\u03c3\u03c2"},
+	{"invalid-utf8", "bad \xff\xfe \xc3 \xc0\xaf \xed\xa0\x80 \xf4\x90\x80\x80 \xe2\x82 end"},
+	{"formatting", "nbsp\u00a0 rlo\u202e zwj\u200d bom\ufeff nel\u0085 st\u009c shy\u00ad"},
+}
+
+// c04ValidTexts: the subset that is well-formed UTF-8 (writers that check, e.g. crypto/x509)
+func c04ValidTexts() []c04Text {
+	var out []c04Text
+	for _, t := range c04Texts {
+		if t.tag != "invalid-utf8" {
+			out = append(out, t)
+		}
+	}
+	return out
+}
+
+func c04B64url(b []byte) string { return base64.RawURLEncoding.EncodeToString(b) }
+
+// c04RawJWT: the JSON texts as given (json.Marshal would replace invalid UTF-8 and pick the escapes)
+func c04RawJWT(hdr, payload string) []byte {
+	return []byte(c04B64url([]byte(hdr)) + "." + c04B64url([]byte(payload)) + "." + c04B64url([]byte("sig")))
+}
+
+func c04JSONString(s string) string { // minimal escaping: the bytes stay as they are
+	s = strings.ReplaceAll(s, `\`, `\\`)
+	s = strings.ReplaceAll(s, `"`, `\"`)
+	return `"` + s + `"`
+}
+
+func c04SSH1WithComment(comment string) []byte {
+	d := fixture("ssh1/rsa")
+	const hdr = "SSH PRIVATE KEY FILE FORMAT 1.1\n\x00"
+	p := len(hdr) + 9
+	for k := 0; k < 2; k++ { // modulus, exponent: 2-octet bit count, magnitude
+		bits := int(binary.BigEndian.Uint16(d[p:]))
+		p += 2 + (bits+7)/8
+	}
+	old := int(binary.BigEndian.Uint32(d[p:]))
+	out := append([]byte{}, d[:p]...)
+	out = append(out, u32(uint32(len(comment)))...)
+	out = append(out, comment...)
+	return append(out, d[p+4+old:]...)
+}
+
+func c04PPKWithComment(comment string) []byte {
+	lines := strings.Split(string(fixture("putty/ed25519.ppk")), "\n")
+	for i, l := range lines {
+		if strings.HasPrefix(l, "Comment: ") {
+			cr := ""
+			if strings.HasSuffix(l, "\r") {
+				cr = "\r"
+			}
+			lines[i] = "Comment: " + comment + cr
+		}
+	}
+	return []byte(strings.Join(lines, "\n"))
+}
+
+// c04DERStrings: one value of every ASN.1 string type holding s (BMPString and UniversalString
+// hold its UTF-16 / UTF-32 form), for the generic ASN.1 report
+func c04DERStrings(s string) []byte {
+	var bmp, univ []byte
+	for _, r := range s {
+		if r > 0xffff {
+			r -= 0x10000
+			bmp = append(bmp, byte(0xd8|r>>18), byte(r>>10), byte(0xdc|(r>>8)&3), byte(r))
+		} else {
+			bmp = append(bmp, byte(r>>8), byte(r))
+		}
+		univ = append(univ, byte(r>>24), byte(r>>16), byte(r>>8), byte(r))
+	}
+	return derSeq(derTLV(0x0c, []byte(s)), derTLV(0x13, []byte(s)), derTLV(0x16, []byte(s)), derTLV(0x14, []byte(s)),
+		derTLV(0x1a, []byte(s)), derTLV(0x1e, bmp), derTLV(0x1c, univ), derTLV(0x12, []byte(s)))
+}
+
+type c04In struct {
+	tag, name string
+	data      []byte
+	big       bool // a large multi-valued input: fewer repetitions in the quick tier
+	want      int  // the number of children the report is expected to have (0: not checked); a NOTE when it has fewer
+}
+
+func c04TextInputs(r *Rng) []c04In {
+	var ins []c04In
+	edPub := strings.Fields(string(fixture("ssh/id_ed25519.pub")))
+	rsaPub := strings.Fields(string(fixture("ssh/id_rsa_1024.pub")))
+	when := time.Date(2031, 6, 30, 23, 40, 0, 0, time.UTC)
+	var idNames []string
+	var alias []string
+	for i, t := range c04Texts {
+		// SSH public key, authorized_keys and known_hosts: the comment is the rest of the line
+		ins = append(ins, c04In{tag: "text-sshpub-" + t.tag, name: fmt.Sprintf("id_%d.pub", i), data: []byte(edPub[0] + " " + edPub[1] + " " + t.s + "\n")})
+		idNames = append(idNames, t.s+" <"+t.tag+"@example.org>")
+		alias = append(alias, t.s)
+		ins = append(ins, c04In{tag: "text-ssh1-" + t.tag, name: fmt.Sprintf("ssh1_%d", i), data: c04SSH1WithComment(t.s)})
+		ins = append(ins, c04In{tag: "text-ppk-" + t.tag, name: fmt.Sprintf("k%d.ppk", i), data: c04PPKWithComment(t.s)})
+		ins = append(ins, c04In{tag: "text-jwt-" + t.tag, name: fmt.Sprintf("t%d.jwt", i),
+			data: c04RawJWT(`{"alg":"none","typ":`+c04JSONString(t.s)+`,"kid":`+c04JSONString(t.s)+`}`,
+				`{"sub":`+c04JSONString(t.s)+`,"iss":`+c04JSONString("issuer "+t.s)+`,"aud":`+c04JSONString(t.s)+`,"jti":`+c04JSONString(t.s)+`,"exp":`+c04JSONString(t.s)+`}`)})
+		ins = append(ins, c04In{tag: "text-asn1-" + t.tag, name: fmt.Sprintf("s%d.der", i), data: c04DERStrings(t.s)})
+		// RPM: the package name, overwritten in place (same length)
+		rp := fixture("rpm/RSA-2048-sha256.rpm")
+		repl := []byte(t.s)
+		for len(repl) < 5 {
+			repl = append(repl, '.')
+		}
+		rp = bytes.ReplaceAll(rp, []byte("dummy\x00"), append(append([]byte{}, c04Clip(repl, 5)...), 0))
+		ins = append(ins, c04In{tag: "text-rpm-" + t.tag, name: fmt.Sprintf("p%d.rpm", i), data: rp})
+	}
+	// JSON escapes: a surrogate pair, a lone surrogate, C1 and NUL written as \u escapes
+	ins = append(ins, c04In{tag: "text-jwt-escapes", name: "esc.jwt", data: c04RawJWT("{\"alg\":\"none\",\"kid\":\"\\ud83d\\ude00 \\ud800 \u0131\u0130 \\u009b \\u0000 \\u00e9\"}",
+		"{\"sub\":\"\u00e9\u011b \u65e5\u672c \\ud834\\udd1e\",\"iss\":\"e\\u0301\"}")})
+	var ak, kh bytes.Buffer
+	for i, t := range c04Texts {
+		k := []([]string){edPub, rsaPub}[i%2]
+		fmt.Fprintf(&ak, "%s %s %s\n", k[0], k[1], t.s)
+		// a known_hosts line has at most five fields (x/crypto/ssh splits at Unicode white space)
+		word := strings.NewReplacer(" ", "-", ",", "-", "\u00a0", "-", "\u0085", "-").Replace(t.s)
+		fmt.Fprintf(&kh, "%s,h%d.example.org %s %s %s\n", word, i, k[0], k[1], word)
+	}
+	ins = append(ins, c04In{tag: "text-authorized-keys", name: "authorized_keys", data: ak.Bytes(), want: len(c04Texts)})
+	ins = append(ins, c04In{tag: "text-known-hosts", name: "known_hosts", data: kh.Bytes(), want: len(c04Texts)})
+	// X.509: UTF8String attribute values in subject and issuer (self-signed), one certificate per text
+	var chain bytes.Buffer
+	for i, t := range c04ValidTexts() {
+		der := c04Cert(r, pkix.Name{CommonName: t.s, Organization: []string{"Org " + t.s}, OrganizationalUnit: []string{t.s}, Locality: []string{t.s}, Country: []string{"TR"}},
+			x509.KeyUsageDigitalSignature|x509.KeyUsageCertSign, nil, []string{"a.example"}, nil, nil, nil, when)
+		ins = append(ins, c04In{tag: "text-cert-" + t.tag, name: fmt.Sprintf("u%d.cer", i), data: der})
+		chain.Write(pem.EncodeToMemory(&pem.Block{Type: "CERTIFICATE", Bytes: der}))
+		if i == 0 {
+			// the same certificate with the subject's bytes replaced in place by an invalid sequence and
+			// a dNSName holding octets outside IA5 (what crypto/x509 refuses to write)
+			bad := bytes.Replace(der, []byte("Zo\u00eb"), []byte("Z\xff\xfeb"), -1)
+			bad = bytes.Replace(bad, []byte("a.example"), []byte("\xc3\xa4.\xe6\x97\xa5.ex"), -1)
+			ins = append(ins, c04In{tag: "text-cert-invalid-utf8", name: "ubad.cer", data: bad})
+		}
+	}
+	ins = append(ins, c04In{tag: "text-pem-chain", name: "utf8-chain.pem", data: chain.Bytes(), want: len(c04ValidTexts())})
+	// OpenPGP: one key with every text as a user ID
+	ins = append(ins, c04In{tag: "text-pgp-userids", name: "uids.asc", data: c04PGPKey(r, idNames, 2, 1719790800), want: len(idNames) + 2})
+	// Java keystore: the aliases
+	ins = append(ins, c04In{tag: "text-jks-aliases", name: "aliases.jks", data: c04Keystore(r, false, len(alias), func(i int) string { return alias[i] }), want: len(alias)})
+	ins = append(ins, c04In{tag: "text-jceks-aliases", name: "aliases.jceks", data: c04Keystore(r, true, len(alias), func(i int) string { return alias[i] }), want: len(alias)})
+	// the file's own name
+	ins = append(ins, c04In{tag: "text-file-name", name: "\u043a\u043b\u044e\u0447 \u65e5\u672c\u8a9e \u0131\u0130 \U0001F600.pub", data: []byte(edPub[0] + " " + edPub[1] + " plain\n")})
+	return ins
+}
+
+func c04Clip(b []byte, n int) []byte { return b[:n] }
+
+// c04PGPKey: an armored public key written by the harness's own OpenPGP writer (pgpw.go): RSA-1024
+// primary from the pre-generated primes, the given user IDs (each self-signed), nSub subkeys of
+// different algorithms with expiring bindings. Creation times lie minutes before a UTC midnight.
+func c04PGPKey(r *Rng, names []string, nSub int, created uint32) []byte {
+	primary := newRSAKey(0, 1, created)
+	b := newEnt(primary, false, r, func() int { return 3 })
+	for i, n := range names {
+		id := b.uid(n)
+		life := uint32(86400*(300+i) + 1500)
+		o := selfSigOpts(primary, 8, created+uint32(i), 0x03, &life)
+		o.primaryUID = i == 3
+		b.cert(id, nil, o, true)
+	}
+	for j := 0; j < nSub; j++ {
+		t := created + 60*uint32(j+1)
+		var sk *pkey
+		flags, cross := byte(0x0c), false
+		switch j % 5 {
+		case 0:
+			sk = newCv25519Key(t, r, kdfSHA256AES128)
+		case 1:
+			sk = newRSAKey(1+j%8, 1, t)
+		case 2:
+			sk = newEdDSAKey(t, r)
+			flags, cross = 0x02, true
+		case 3:
+			sk = newECKey(oidP256, 18, t, r, kdfSHA256AES128)
+		default:
+			sk = newRSAKey(9+j%6, 2, t)
+		}
+		life := uint32(86400*(30+j) + 1260)
+		b.subkey(sk, bindingOpts(primary, 8, t, flags, &life), cross, false, nil)
+	}
+	return pgpArmor(false, b.stream, nil, 64, true)
+}
+
+// c04Keystore: a JKS / JCEKS file with n entries, written with the harness's keystore writer from
+// the entries of the repository's fixture (private-key and, for JCEKS, secret-key entries, re-used
+// round robin under new aliases and dates) and trusted-certificate entries with fresh certificates.
+func c04Keystore(r *Rng, jce bool, n int, alias func(i int) string) []byte {
+	fx, magic := "java/keystore.jks", keystore.JKSMagic
+	if jce {
+		fx, magic = "java/keystore-jce.jks", keystore.JCEKSMagic
+	}
+	fxData := fixture(fx)
+	w := c06WalkJKS(fxData)
+	var base []jksEntry
+	sealed := 0
+	for _, e := range w.es {
+		if e.typ == 3 { // the serialised SealedObject is cut out of the fixture
+			if sealed >= len(w.secret) {
+				continue
+			}
+			sx := w.secret[sealed].(SL)
+			sealed++
+			o := sx[1].(SL)
+			if len(o) < 2 {
+				continue
+			}
+			off, n := int(sx[0].(sInt)), int(o[1].(sInt))
+			e.blob = fxData[off : off+n]
+		}
+		base = append(base, e)
+	}
+	var es []jksEntry
+	for i := 0; i < n; i++ {
+		date := uint64(time.Date(2020+i%9, time.Month(1+i%12), 1+i%28, 23, 30+i%30, i%60, 0, time.UTC).UnixMilli())
+		if i%3 == 2 || len(base) == 0 {
+			when := time.Date(2033, 1, 1+i%28, 0, i%60, 0, 0, time.UTC)
+			der := c04Cert(r, pkix.Name{CommonName: fmt.Sprintf("trusted %03d", i)}, x509.KeyUsage(1+i%511), nil, []string{fmt.Sprintf("t%d.example", i)}, nil, nil, nil, when)
+			es = append(es, jksEntry{typ: 2, alias: alias(i), date: date, certs: []jksCert{{"X.509", der}}})
+			continue
+		}
+		e := base[(i-i/3)%len(base)]
+		e.alias, e.date = alias(i), date
+		es = append(es, e)
+	}
+	return c06WriteJKS(magic, 2, es, make([]byte, 20))
+}
+
+// ---------------------------------------------------------------------------------------
+// large multi-valued inputs
+// ---------------------------------------------------------------------------------------
+
+// c04PEMPool: at least n distinct PEM blocks, certificates and keys of different kinds mixed (an
+// RSA-4096 key takes far longer to parse than an Ed25519 certificate): fresh Ed25519 certificates
+// and PKCS#8 keys, RSA keys of 768..4096 bits from the pre-generated primes, and every block of the
+// repository's own PEM fixtures.
+func c04PEMPool(r *Rng, n int) [][]byte {
+	var other [][]byte
+	for i := range pgpPool.RSA {
+		e := pgpPool.RSA[i]
+		p, q := hexBig(e.P), hexBig(e.Q)
+		one := big.NewInt(1)
+		phi := new(big.Int).Mul(new(big.Int).Sub(p, one), new(big.Int).Sub(q, one))
+		d := new(big.Int).ModInverse(big.NewInt(int64(e.E)), phi)
+		priv := &rsa.PrivateKey{PublicKey: rsa.PublicKey{N: new(big.Int).Mul(p, q), E: e.E}, D: d, Primes: []*big.Int{p, q}}
+		priv.Precompute()
+		if i%2 == 0 {
+			other = append(other, pem.EncodeToMemory(&pem.Block{Type: "RSA PRIVATE KEY", Bytes: x509.MarshalPKCS1PrivateKey(priv)}))
+		} else if der, err := x509.MarshalPKCS8PrivateKey(priv); err == nil {
+			other = append(other, pem.EncodeToMemory(&pem.Block{Type: "PRIVATE KEY", Bytes: der}))
+		}
+	}
+	dir := filepath.Join(repoDir(), "internal/file/testdata/x509/pem")
+	es, _ := os.ReadDir(dir)
+	var names []string
+	for _, e := range es {
+		names = append(names, e.Name())
+	}
+	sort.Strings(names)
+	seen := map[string]bool{}
+	for _, nm := range names {
+		rest, _ := os.ReadFile(filepath.Join(dir, nm))
+		for {
+			var b *pem.Block
+			b, rest = pem.Decode(rest)
+			if b == nil {
+				break
+			}
+			t := string(pem.EncodeToMemory(&pem.Block{Type: b.Type, Bytes: b.Bytes}))
+			if !seen[t] {
+				seen[t] = true
+				other = append(other, []byte(t))
+			}
+		}
+	}
+	for _, nm := range []string{"id_ed25519", "id_rsa_4096", "id_ecdsa_521", "id_dsa_1024", "id_ecdsa_256_enc"} {
+		if b, _ := pem.Decode(fixture("ssh/" + nm)); b != nil {
+			other = append(other, pem.EncodeToMemory(&pem.Block{Type: b.Type, Bytes: b.Bytes}))
+		}
+	}
+	var pool [][]byte
+	for i := 0; len(pool) < n; i++ {
+		switch {
+		case i%3 == 1 && len(other) > 0:
+			pool = append(pool, other[0])
+			other = other[1:]
+		case i%7 == 3:
+			_, priv, _ := ed25519.GenerateKey(r)
+			der, _ := x509.MarshalPKCS8PrivateKey(priv)
+			pool = append(pool, pem.EncodeToMemory(&pem.Block{Type: "PRIVATE KEY", Bytes: der}))
+		default:
+			when := time.Date(2034, time.Month(1+i%12), 1+i%28, 23, 59-i%45, 0, 0, time.UTC)
+			der := c04Cert(r, pkix.Name{CommonName: fmt.Sprintf("bundle member %03d", i), Organization: []string{"C04"}}, x509.KeyUsage(1+(i*37)%511),
+				[]x509.ExtKeyUsage{x509.ExtKeyUsageServerAuth, x509.ExtKeyUsageClientAuth}, []string{fmt.Sprintf("m%d.example", i), "alt.example"}, nil, nil, nil, when)
+			pool = append(pool, pem.EncodeToMemory(&pem.Block{Type: "CERTIFICATE", Bytes: der}))
+		}
+	}
+	return pool
+}
+
+func c04SSHKeyLine(r *Rng, i int, fixtures [][]string) (typ, b64 string) {
+	if i%5 == 4 {
+		f := fixtures[(i/5)%len(fixtures)]
+		return f[0], f[1]
+	}
+	priv := ed25519.NewKeyFromSeed(r.Bytes(32))
+	pub, _ := ssh.NewPublicKey(priv.Public())
+	return pub.Type(), base64.StdEncoding.EncodeToString(pub.Marshal())
+}
+
+func c04LargeInputs(r *Rng, thorough bool) []c04In {
+	var ins []c04In
+	// PEM bundles around the sizes where an implementation may switch strategy
+	sizes := []int{15, 16, 17, 40, 150}
+	if thorough {
+		sizes = append(sizes, 2, 31, 32, 33, 64, 65, 100, 255, 256, 257)
+	}
+	max := 0
+	for _, n := range sizes {
+		if n > max {
+			max = n
+		}
+	}
+	pool := c04PEMPool(r, max)
+	for _, n := range sizes {
+		ins = append(ins, c04In{tag: fmt.Sprintf("large-pem-%d", n), name: fmt.Sprintf("bundle-%d.pem", n), data: bytes.Join(pool[:n], nil), big: true, want: n})
+	}
+	// authorized_keys and known_hosts with 200 entries
+	var fx [][]string
+	for _, n := range []string{"id_dsa_1024", "id_ecdsa_256", "id_ecdsa_384", "id_ecdsa_521", "id_rsa_1024", "id_rsa_2048", "id_rsa_3072", "id_rsa_4096"} {
+		fx = append(fx, strings.Fields(string(fixture("ssh/"+n+".pub"))))
+	}
+	nLines := 200
+	var ak, kh bytes.Buffer
+	for i := 0; i < nLines; i++ {
+		typ, b64 := c04SSHKeyLine(r, i, fx)
+		cm := fmt.Sprintf("user%03d@host%d", i, i%17)
+		if i%9 == 0 {
+			cm += " " + c04Texts[(i/9)%len(c04Texts)].s
+		}
+		opt := ""
+		if i%11 == 5 {
+			opt = `command="echo ` + fmt.Sprint(i) + `",no-pty `
+		}
+		fmt.Fprintf(&ak, "%s%s %s %s\n", opt, typ, b64, cm)
+		typ, b64 = c04SSHKeyLine(r, i, fx)
+		fmt.Fprintf(&kh, "h%03d.example.org,10.0.%d.%d %s %s\n", i, i/250, i%250+1, typ, b64)
+	}
+	ins = append(ins, c04In{tag: "large-authorized-keys-200", name: "authorized_keys", data: ak.Bytes(), big: true, want: nLines})
+	ins = append(ins, c04In{tag: "large-known-hosts-200", name: "known_hosts", data: kh.Bytes(), big: true, want: nLines})
+	// keystores with many entries
+	al := func(i int) string { return fmt.Sprintf("entry-%03d", (i*37)%1000) }
+	ins = append(ins, c04In{tag: "large-jks-120", name: "many.jks", data: c04Keystore(r, false, 120, al), big: true, want: 120})
+	ins = append(ins, c04In{tag: "large-jceks-60", name: "many.jceks", data: c04Keystore(r, true, 60, al), big: true, want: 60})
+	// an OpenPGP key with 20 identities and 10 subkeys
+	var ids []string
+	for i := 0; i < 20; i++ {
+		// neither sorted nor reverse sorted in the file; upper and lower case, a common prefix, non-ASCII
+		ids = append(ids, fmt.Sprintf("%s Identity %02d <id%02d@example.org>", []string{"zoe", "Alice", "alice", "Bob", "\u00c5sa", "Zo\u00eb", "bob"}[(i*3)%7], (i*7)%20, i))
+	}
+	ins = append(ins, c04In{tag: "large-pgp-20ids-10subkeys", name: "many.asc", data: c04PGPKey(r, ids, 10, 1735687200-600), big: true, want: 30})
+	// a certificate with 100 subject alternative names of every kind and all usages
+	var dns, emails []string
+	var ips []net.IP
+	var uris []*url.URL
+	for i := 0; i < 100; i++ {
+		switch i % 4 {
+		case 0:
+			dns = append(dns, fmt.Sprintf("%c%02d.example.org", 'z'-byte(i%26), i))
+		case 1:
+			ips = append(ips, net.IPv4(10, byte(200-i), byte(i), 1), net.ParseIP(fmt.Sprintf("2001:db8::%x", 0xffff-i*257)))
+		case 2:
+			emails = append(emails, fmt.Sprintf("%c%d@example.org", 'm'-byte(i%13), i))
+		default:
+			u, _ := url.Parse(fmt.Sprintf("https://%c.example.org/%d", 'q'-byte(i%16), i))
+			uris = append(uris, u)
+		}
+	}
+	var ekus []x509.ExtKeyUsage
+	for e := x509.ExtKeyUsageAny; e <= x509.ExtKeyUsageMicrosoftKernelCodeSigning; e++ {
+		ekus = append(ekus, e)
+	}
+	der := c04Cert(r, pkix.Name{CommonName: "a hundred names"}, x509.KeyUsage(511), ekus, dns, ips, emails, uris, time.Date(2035, 12, 31, 23, 50, 0, 0, time.UTC))
+	ins = append(ins, c04In{tag: "large-cert-100sans-all-usages", name: "sans.cer", data: der, big: true})
+	return ins
+}
+
+// ---------------------------------------------------------------------------------------
+// environments of a separate process
+// ---------------------------------------------------------------------------------------
+
+type c04Env struct {
+	vars   [][2]string // set variables, in this order
+	cwd    string
+	umask  string // "": inherited
+	toFile bool   // standard output is a regular file instead of a pipe
+}
+
+func (e c04Env) String() string {
+	var sb strings.Builder
+	for _, v := range e.vars {
+		fmt.Fprintf(&sb, "%s=%s ", v[0], v[1])
+	}
+	fmt.Fprintf(&sb, "cwd=%s", e.cwd)
+	if e.umask != "" {
+		fmt.Fprintf(&sb, " umask=%s", e.umask)
+	}
+	if e.toFile {
+		sb.WriteString(" stdout=file")
+	} else {
+		sb.WriteString(" stdout=pipe")
+	}
+	return sb.String()
+}
+
+func (e c04Env) with(k, v string) c04Env {
+	out := e
+	out.vars = nil
+	done := false
+	for _, kv := range e.vars {
+		if kv[0] == k {
+			kv[1] = v
+			done = true
+		}
+		out.vars = append(out.vars, kv)
+	}
+	if !done {
+		out.vars = append(out.vars, [2]string{k, v})
+	}
+	return out
+}
+
+func (e c04Env) without(k string) c04Env {
+	out := e
+	out.vars = nil
+	for _, kv := range e.vars {
+		if kv[0] != k {
+			out.vars = append(out.vars, kv)
+		}
+	}
+	return out
+}
+
+var c04Locales = []string{"", "C", "POSIX", "en_US.ISO-8859-1", "tr_TR.UTF-8", "ja_JP.eucJP", "en_US.UTF-8", "C.UTF-8", "de_DE@euro"}
+var c04LocaleVars = []string{"LC_ALL", "LC_CTYPE", "LANG", "LANGUAGE"}
+var c04Godebug = []string{"asyncpreemptoff=1", "gctrace=0,madvdontneed=1", "randautoseed=0", "gcstoptheworld=1", "panicnil=1,invalidptr=0"}
+
+// c04Envs: the baseline (no locale variable at all, TZ=UTC, cwd=/), every factor varied on its own
+// and nRandom combinations. The first element is the baseline, twice (two processes, one environment).
+func c04Envs(r *Rng, dir string, tzs []string, nRandom int) []c04Env {
+	base := c04Env{vars: [][2]string{{"PATH", "/usr/bin:/bin"}, {"TZ", "UTC"}, {"HOME", "/nonexistent"}}, cwd: "/"}
+	envs := []c04Env{base, base}
+	for i, tz := range tzs {
+		e := base.with("TZ", tz)
+		if i%2 == 1 {
+			e.cwd = dir
+		}
+		envs = append(envs, e)
+	}
+	envs = append(envs, base.without("TZ"))
+	for _, v := range c04LocaleVars {
+		for _, l := range c04Locales {
+			envs = append(envs, base.with(v, l))
+		}
+	}
+	// what precedes what: LC_ALL over LC_CTYPE over LANG
+	envs = append(envs, base.with("LANG", "en_US.UTF-8").with("LC_ALL", "C"), base.with("LANG", "C").with("LC_ALL", "en_US.UTF-8"),
+		base.with("LANG", "tr_TR.UTF-8").with("LC_CTYPE", "POSIX"), base.with("LC_MESSAGES", "ja_JP.eucJP").with("LC_COLLATE", "C").with("LC_TIME", "tr_TR.UTF-8"))
+	for _, kv := range [][2]string{{"TERM", "dumb"}, {"TERM", "xterm-256color"}, {"TERM", ""}, {"COLUMNS", "1"}, {"COLUMNS", "40"}, {"COLUMNS", "100000"}, {"LINES", "1"},
+		{"NO_COLOR", "1"}, {"CLICOLOR_FORCE", "1"}, {"HOME", "/tmp"}, {"HOME", dir}, {"TMPDIR", "/nonexistent"}, {"TMPDIR", dir}, {"USER", "root"}, {"USER", "nobody"}, {"LOGNAME", "x"},
+		{"GOMAXPROCS", "1"}, {"GOMAXPROCS", "2"}, {"GOMAXPROCS", "16"}, {"GOGC", "1"}, {"GOGC", "off"}, {"SOURCE_DATE_EPOCH", "1"}, {"PWD", "/elsewhere"}, {"HOSTNAME", "h"}} {
+		envs = append(envs, base.with(kv[0], kv[1]))
+	}
+	for _, g := range c04Godebug {
+		envs = append(envs, base.with("GODEBUG", g))
+	}
+	envs = append(envs, base.without("HOME"), base.without("PATH"))
+	for _, um := range []string{"000", "077", "777"} {
+		e := base
+		e.umask = um
+		envs = append(envs, e)
+	}
+	e := base
+	e.toFile = true
+	envs = append(envs, e)
+	e.cwd = dir
+	envs = append(envs, e.with("GOMAXPROCS", "16"))
+	for k := 0; k < nRandom; k++ {
+		e := c04Env{vars: [][2]string{{"PATH", "/usr/bin:/bin"}}, cwd: []string{"/", dir, "/tmp"}[r.Intn(3)]}
+		if r.Intn(6) > 0 {
+			e = e.with("TZ", tzs[r.Intn(len(tzs))])
+		}
+		for _, v := range c04LocaleVars {
+			if r.Intn(2) == 0 {
+				e = e.with(v, c04Locales[r.Intn(len(c04Locales))])
+			}
+		}
+		if r.Intn(2) == 0 {
+			e = e.with("GOMAXPROCS", []string{"1", "2", "3", "16", "64"}[r.Intn(5)])
+		}
+		if r.Intn(3) == 0 {
+			e = e.with("GODEBUG", c04Godebug[r.Intn(len(c04Godebug))])
+		}
+		if r.Intn(3) == 0 {
+			e = e.with("TERM", []string{"dumb", "xterm", "vt100", "linux"}[r.Intn(4)])
+		}
+		if r.Intn(3) == 0 {
+			e = e.with("COLUMNS", fmt.Sprint(1+r.Intn(300)))
+		}
+		if r.Intn(3) == 0 {
+			e = e.with("HOME", []string{"/", dir, "/root", ""}[r.Intn(4)])
+		}
+		if r.Intn(4) == 0 {
+			e = e.with("USER", []string{"root", "daemon", "\u00fcser"}[r.Intn(3)])
+		}
+		if r.Intn(4) == 0 {
+			e = e.with("NO_COLOR", "1")
+		}
+		if r.Intn(4) == 0 {
+			e.umask = []string{"022", "027", "077", "000"}[r.Intn(4)]
+		}
+		e.toFile = r.Intn(3) == 0
+		envs = append(envs, e)
+	}
+	return envs
+}
+
+// c04RunCLI runs the real CLI on path in environment e and returns its standard output (followed by
+// a marker when the exit status is not 0).
+func c04RunCLI(c *Ctx, e c04Env, path string, scratch string, slot int) []byte {
+	var cmd *exec.Cmd
+	if e.umask != "" {
+		cmd = exec.Command("/bin/sh", "-c", `umask `+e.umask+`; exec "$0" "$@"`, c.Bin, path)
+	} else {
+		cmd = exec.Command(c.Bin, path)
+	}
+	cmd.Dir = e.cwd
+	cmd.Env = []string{}
+	for _, kv := range e.vars {
+		cmd.Env = append(cmd.Env, kv[0]+"="+kv[1])
+	}
+	var out []byte
+	var err error
+	if e.toFile {
+		fn := filepath.Join(scratch, fmt.Sprintf("stdout-%d", slot))
+		f, ferr := os.Create(fn)
+		if ferr != nil {
+			return []byte("[harness: " + ferr.Error() + "]")
+		}
+		cmd.Stdout = f
+		err = cmd.Run()
+		f.Close()
+		out, _ = os.ReadFile(fn)
+		os.Remove(fn)
+	} else {
+		out, err = cmd.Output()
+	}
+	if err != nil {
+		if ee, ok := err.(*exec.ExitError); ok {
+			out = append(out, fmt.Sprintf("\n[exit status %d]", ee.ExitCode())...)
+		} else {
+			out = append(out, ("\n[not started: " + err.Error() + "]")...)
+		}
+	}
+	return out
+}
+
+// c04Distinct: the distinct observations in order of first appearance, each with the label of the
+// first run that produced it: ((output label) ...). One element when the output is a function of
+// the input.
+func c04Distinct(obs []string, labels []string) (SL, string, string) {
+	seen := map[string]bool{}
+	l := SL{}
+	for i, o := range obs {
+		if !seen[o] {
+			seen[o] = true
+			l = append(l, SL{SB([]byte(o)), S(labels[i])})
+		}
+	}
+	if len(obs) == 0 {
+		return l, "", ""
+	}
+	return l, obs[0], labels[0]
+}
+
 func genC04(c *Ctx) {
-	reps, cliReps := 100, 2
+	reps, bigReps, nRandom, conc, concBig := 100, 50, 10, 3, 5
 	if c.Thorough() {
-		reps, cliReps = 1000, 5
+		reps, bigReps, nRandom, conc, concBig = 1000, 300, 120, 25, 25
 	}
-	type inp struct {
-		tag, name string
-		data      []byte
-	}
-	inputs := []inp{
-		{"cert-fixture-3usages", "ms.cer", fixture("x509/der/www.microsoft.com.cer")},
-		{"cert-fixture-sans", "gh.cer", fixture("x509/der/github.com.cer")},
-		{"jks", "keystore.jks", fixture("java/keystore.jks")},
-		{"jceks", "keystore-jce.jks", fixture("java/keystore-jce.jks")},
-		{"pgp-3ids", "k3.asc", embedded("pgp/ids3.asc")},
-		{"pgp-4ids", "k4.asc", embedded("pgp/ids4.asc")},
-		{"pgp-expiring-subkey", "kx.asc", embedded("pgp/expiring.asc")},
-		{"pgp-two-primary-uids", "k2p.asc", embedded("pgp/twoprimary.asc")},
-		{"jwt-a", "a.jwt", jwtWith(map[string]any{"sub": "a", "iss": "issuer-a", "jti": "a-0001"}, map[string]any{"alg": "RS256", "kid": "signing-key-2023"})},
-		{"jwt-b", "b.jwt", jwtWith(map[string]any{"sub": "b"}, map[string]any{"alg": "none"})},
-		{"pem-bundle", "chain.pem", fixture("java/chain.pem")},
-		{"jwt", "t.jwt", jwtWith(map[string]any{"sub": "s", "iss": "i", "aud": "a", "jti": "j", "exp": "1700000000", "iat": "1700000000", "nbf": "1700000000"},
+	inputs := []c04In{
+		{tag: "cert-fixture-3usages", name: "ms.cer", data: fixture("x509/der/www.microsoft.com.cer")},
+		{tag: "cert-fixture-sans", name: "gh.cer", data: fixture("x509/der/github.com.cer")},
+		{tag: "jks", name: "keystore.jks", data: fixture("java/keystore.jks")},
+		{tag: "jceks", name: "keystore-jce.jks", data: fixture("java/keystore-jce.jks")},
+		{tag: "pgp-3ids", name: "k3.asc", data: embedded("pgp/ids3.asc")},
+		{tag: "pgp-4ids", name: "k4.asc", data: embedded("pgp/ids4.asc")},
+		{tag: "pgp-expiring-subkey", name: "kx.asc", data: embedded("pgp/expiring.asc")},
+		{tag: "pgp-two-primary-uids", name: "k2p.asc", data: embedded("pgp/twoprimary.asc")},
+		{tag: "jwt-a", name: "a.jwt", data: jwtWith(map[string]any{"sub": "a", "iss": "issuer-a", "jti": "a-0001"}, map[string]any{"alg": "RS256", "kid": "signing-key-2023"})},
+		{tag: "jwt-b", name: "b.jwt", data: jwtWith(map[string]any{"sub": "b"}, map[string]any{"alg": "none"})},
+		{tag: "pem-bundle", name: "chain.pem", data: fixture("java/chain.pem")},
+		{tag: "jwt", name: "t.jwt", data: jwtWith(map[string]any{"sub": "s", "iss": "i", "aud": "a", "jti": "j", "exp": "1700000000", "iat": "1700000000", "nbf": "1700000000"},
 			map[string]any{"alg": "ES256", "typ": "JWT", "kid": "k", "x5u": "u", "jku": "j"})},
-		{"rpm", "p.rpm", fixture("rpm/RSA-2048-sha256.rpm")},
-		{"uuid-v1", "u1.txt", []byte("c232ab00-9414-11ec-b3c8-9f6bdeced846\n")},
-		{"uuid-v6", "u6.txt", []byte("1EC9414C-232A-6B00-B3C8-9E6BDECED846")},
-		{"uuid-v7", "u7.txt", []byte("017F22E2-79B0-7CC3-98C4-DC0C0C07398F")},
+		{tag: "rpm", name: "p.rpm", data: fixture("rpm/RSA-2048-sha256.rpm")},
+		{tag: "uuid-v1", name: "u1.txt", data: []byte("c232ab00-9414-11ec-b3c8-9f6bdeced846\n")},
+		{tag: "uuid-v6", name: "u6.txt", data: []byte("1EC9414C-232A-6B00-B3C8-9E6BDECED846")},
+		{tag: "uuid-v7", name: "u7.txt", data: []byte("017F22E2-79B0-7CC3-98C4-DC0C0C07398F")},
 		// generic ASN.1 dump with UTCTime values just before midnight UTC, one with a zone offset
-		{"asn1-utctime", "t.der", []byte{0x30, 0x20, 0x17, 0x0d, '2', '4', '0', '3', '0', '1', '2', '3', '3', '0', '0', '0', 'Z',
+		{tag: "asn1-utctime", name: "t.der", data: []byte{0x30, 0x20, 0x17, 0x0d, '2', '4', '0', '3', '0', '1', '2', '3', '3', '0', '0', '0', 'Z',
 			0x17, 0x0f, '2', '4', '0', '3', '0', '1', '2', '3', '3', '0', '+', '0', '1', '0', '0'}},
 		// UTCTime values whose zone offset is one in use in the time zones the runs are made under, with
 		// two-digit years on both sides of the 1950/2050 and 1969 pivots, in summer and in winter
 		// (encoding/asn1 moves 20xx to 19xx on a local-zone value when the offset matches TZ: fixed as C04-utc)
-		{"asn1-utctime-zones", "tz.der", c04UTCTimes()},
-		{"jwt-numeric-dates", "n.jwt", jwtWith(map[string]any{"exp": 1709335800, "nbf": 1709335800.5, "iat": 1}, map[string]any{"alg": "none"})},
-		{"ppk", "k.ppk", fixture("putty/ecdsa-enc-argon2i.ppk")},
+		{tag: "asn1-utctime-zones", name: "tz.der", data: c04UTCTimes()},
+		{tag: "jwt-numeric-dates", name: "n.jwt", data: jwtWith(map[string]any{"exp": 1709335800, "nbf": 1709335800.5, "iat": 1}, map[string]any{"alg": "none"})},
+		{tag: "ppk", name: "k.ppk", data: fixture("putty/ecdsa-enc-argon2i.ppk")},
 	}
 	nc := 6
 	if c.Thorough() {
@@ -168,10 +781,13 @@ func genC04(c *Ctx) {
 			ku = x509.KeyUsage([]int{511, 0x1 | 0x100, 0x24}[k])
 		}
 		when := time.Date(2030+k, 1, 1, 0, 20*(k%3), 0, 0, time.UTC)
-		inputs = append(inputs, inp{"cert-usages", fmt.Sprintf("c%d.cer", k),
-			certWith(c.R, ku, []x509.ExtKeyUsage{x509.ExtKeyUsageServerAuth, x509.ExtKeyUsageClientAuth, x509.ExtKeyUsageCodeSigning},
+		inputs = append(inputs, c04In{tag: "cert-usages", name: fmt.Sprintf("c%d.cer", k),
+			data: certWith(c.R, ku, []x509.ExtKeyUsage{x509.ExtKeyUsageServerAuth, x509.ExtKeyUsageClientAuth, x509.ExtKeyUsageCodeSigning},
 				[]string{"b.example", "a.example", "c.example"}, []net.IP{net.ParseIP("10.0.0.2"), net.ParseIP("::1")}, when)})
 	}
+	inputs = append(inputs, c04TextInputs(c.R)...)
+	inputs = append(inputs, c04LargeInputs(c.R, c.Thorough())...)
+
 	dir := filepath.Join(c.Tmp, "c04")
 	os.MkdirAll(dir, 0o755)
 	tzs := []string{"UTC", "Pacific/Kiritimati", "America/Los_Angeles", "Asia/Kathmandu", "Europe/Berlin"}
@@ -179,65 +795,89 @@ func genC04(c *Ctx) {
 		tzs = []string{"UTC", "<+14>-14", "<-08>8", "<+0545>-5:45", "CET-1CEST,M3.5.0,M10.5.0/3"}
 		fmt.Fprintln(os.Stderr, "NOTE tz database absent: using fixed-offset TZ strings")
 	}
-	langs := []string{"C", "en_US.UTF-8", "tr_TR.UTF-8"}
-	for _, in := range inputs {
-		p := filepath.Join(dir, in.name)
-		os.WriteFile(p, in.data, 0o644)
-		// in-process repetitions: Go re-randomises every map iteration
-		distinct := map[string]bool{}
-		var first string
-		for k := 0; k < reps; k++ {
-			o, _ := inspectObs(p)
-			s := o.String()
-			if k == 0 {
-				first = s
+	procs0 := runtime.GOMAXPROCS(0)
+	for idx, in := range inputs {
+		// every input in a directory of its own: two inputs may carry the same name (authorized_keys)
+		idir := filepath.Join(dir, fmt.Sprintf("i%03d", idx))
+		os.MkdirAll(idir, 0o755)
+		p := filepath.Join(idir, in.name)
+		if err := os.WriteFile(p, in.data, 0o644); err != nil {
+			fmt.Fprintln(os.Stderr, "NOTE cannot write", in.tag, err)
+			continue
+		}
+		n := reps
+		if in.big {
+			n = bigReps
+		}
+		// (1) in-process repetitions: Go re-randomises every map iteration
+		var obs, labels []string
+		for k := 0; k < n; k++ {
+			o, info := inspectObs(p)
+			if k == 0 && in.want > 0 && len(info.Children) != in.want {
+				fmt.Fprintf(os.Stderr, "NOTE input %s: %d children in the report, %d expected by its generator\n", in.tag, len(info.Children), in.want)
 			}
-			distinct[s] = true
+			obs = append(obs, o.String())
+			labels = append(labels, fmt.Sprintf("repetition %d", k))
 		}
-		var ds []string
-		for s := range distinct {
-			ds = append(ds, s)
+		l, first, firstLabel := c04Distinct(obs, labels)
+		c.Emit("repeat:"+in.tag, SL{S(in.name), SB(in.data), SB([]byte(first)), S(firstLabel)}, l)
+
+		// (2) from several goroutines of the harness at once, with 1, 2 and 16 threads running Go code
+		g, per := 4, conc
+		if in.big {
+			per = concBig
 		}
-		sort.Strings(ds)
-		l := SL{}
-		for _, s := range ds {
-			l = append(l, SB([]byte(s)))
-		}
-		c.Emit("repeat:"+in.tag, SL{S(in.name), SB(in.data), SB([]byte(first))}, l)
-		// separate processes under the environment matrix
-		outs := map[string]bool{}
-		var firstOut []byte
-		for _, tz := range tzs {
-			for _, lang := range langs {
-				for _, cwd := range []string{"/", dir} {
-					for k := 0; k < cliReps; k++ {
-						cmd := exec.Command(c.Bin, p)
-						cmd.Dir = cwd
-						cmd.Env = []string{"TZ=" + tz, "LANG=" + lang, "LC_ALL=" + lang, "PATH=/usr/bin:/bin", "HOME=/nonexistent"}
-						out, _ := cmd.Output()
-						if firstOut == nil {
-							firstOut = out
-						}
-						outs[string(out)] = true
+		obs, labels = nil, nil
+		for _, procs := range []int{1, 2, 16} {
+			runtime.GOMAXPROCS(procs)
+			res := make([][]string, g)
+			var wg sync.WaitGroup
+			for w := 0; w < g; w++ {
+				wg.Add(1)
+				go func(w int) {
+					defer wg.Done()
+					for k := 0; k < per; k++ {
+						o, _ := inspectObs(p)
+						res[w] = append(res[w], o.String())
 					}
+				}(w)
+			}
+			wg.Wait()
+			for w := 0; w < g; w++ {
+				for k, o := range res[w] {
+					obs = append(obs, o)
+					labels = append(labels, fmt.Sprintf("GOMAXPROCS=%d goroutine %d of %d repetition %d", procs, w, g, k))
 				}
 			}
 		}
-		var os_ []string
-		for s := range outs {
-			os_ = append(os_, s)
+		runtime.GOMAXPROCS(procs0)
+		l, first, firstLabel = c04Distinct(obs, labels)
+		c.Emit("conc:"+in.tag, SL{S(in.name), SB(in.data), SB([]byte(first)), S(firstLabel)}, l)
+
+		// (3) separate processes under the environment matrix, eight at a time
+		envs := c04Envs(c.R, idir, tzs, nRandom)
+		outs := make([]string, len(envs))
+		labels = make([]string, len(envs))
+		var wg sync.WaitGroup
+		sem := make(chan struct{}, 8)
+		for i := range envs {
+			labels[i] = strings.ReplaceAll(envs[i].String(), c.Tmp, "<scratch>")
+			wg.Add(1)
+			sem <- struct{}{}
+			go func(i int) {
+				defer wg.Done()
+				defer func() { <-sem }()
+				// the scratch directory has a fresh name in every run of the check: written as <scratch>,
+				// so that a recorded case is regenerated byte for byte when it is replayed
+				outs[i] = string(bytes.ReplaceAll(c04RunCLI(c, envs[i], p, idir, i), []byte(c.Tmp), []byte("<scratch>")))
+			}(i)
 		}
-		sort.Strings(os_)
-		l2 := SL{}
-		for _, s := range os_ {
-			l2 = append(l2, SB([]byte(s)))
-		}
-		c.Emit("env:"+in.tag, SL{S(in.name), SB(in.data), SB(firstOut)}, l2)
-		os.Remove(p)
+		wg.Wait()
+		l, first, firstLabel = c04Distinct(outs, labels)
+		c.Emit("env:"+in.tag, SL{S(in.name), SB(in.data), SB([]byte(first)), S(firstLabel)}, l)
 	}
 	// the same inputs once more, interleaved (A, B, C, ... then in reverse): output must not depend on
 	// what was inspected in between
-	firsts := map[string]string{}
 	order := make([]int, 0, 2*len(inputs))
 	for i := range inputs {
 		order = append(order, i)
@@ -245,34 +885,22 @@ func genC04(c *Ctx) {
 	for i := len(inputs) - 1; i >= 0; i-- {
 		order = append(order, i)
 	}
-	for _, in := range inputs {
-		os.WriteFile(filepath.Join(dir, in.name), in.data, 0o644)
-	}
-	outs := map[int]map[string]bool{}
-	for pass := 0; pass < 3; pass++ {
-		for _, i := range order {
-			o, _ := inspectObs(filepath.Join(dir, inputs[i].name))
-			s := o.String()
-			if _, ok := firsts[inputs[i].name]; !ok {
-				firsts[inputs[i].name] = s
+	obsOf := map[int][]string{}
+	labOf := map[int][]string{}
+	passes := 3
+	for pass := 0; pass < passes; pass++ {
+		for pos, i := range order {
+			if inputs[i].big && pass > 0 {
+				continue
 			}
-			if outs[i] == nil {
-				outs[i] = map[string]bool{}
-			}
-			outs[i][s] = true
+			o, _ := inspectObs(filepath.Join(dir, fmt.Sprintf("i%03d", i), inputs[i].name))
+			obsOf[i] = append(obsOf[i], o.String())
+			labOf[i] = append(labOf[i], fmt.Sprintf("pass %d position %d of the interleaved sequence", pass, pos))
 		}
 	}
 	for i, in := range inputs {
-		var ds []string
-		for s := range outs[i] {
-			ds = append(ds, s)
-		}
-		sort.Strings(ds)
-		l := SL{}
-		for _, s := range ds {
-			l = append(l, SB([]byte(s)))
-		}
-		c.Emit("repeat:interleaved-"+in.tag, SL{S(in.name), SB(in.data), SB([]byte(firsts[in.name]))}, l)
+		l, first, firstLabel := c04Distinct(obsOf[i], labOf[i])
+		c.Emit("repeat:interleaved-"+in.tag, SL{S(in.name), SB(in.data), SB([]byte(first)), S(firstLabel)}, l)
 	}
 	os.RemoveAll(dir)
 }
